@@ -141,6 +141,8 @@ def run(ctx):
                      '{"method": "echo", "params": [1], "id": %s}',
                      '{"jsonrpc": "2.0", "method": "nosuch", "id": %s}',
                      '{"jsonrpc": "2.0", "id": %s}',
+                     '{"jsonrpc": "2.0", "method": "echo", "params": [1], "id": [%s]}',
+                     '{"method": "nosuch", "id": {"a": [0, %s]}}',
                      '[{"jsonrpc": "2.0", "method": "echo", "id": 1}, {"jsonrpc": "2.0", "method": "fail", "id": %s}]',
                      '{"jsonrpc": "2.0", "method": "echo", "params": [%s], "id": 7}',
                      '{"jsonrpc": "2.0", "method": "two", "params": {"a": %s, "b": 0}, "id": 7}'):
